@@ -3,9 +3,9 @@
 P="$1"; shift
 cd /repo || exit 9
 if [ -n "$(git status --porcelain --untracked-files=no)" ]; then echo "repo dirty, refusing"; exit 9; fi
-git apply "$P" 2>/dev/null || git apply -3 "$P" 2>/dev/null || { echo "PATCH-DOES-NOT-APPLY $P"; git checkout -- . ; exit 8; }
+git apply "$P" 2>/dev/null || git apply -3 "$P" 2>/dev/null || { echo "PATCH-DOES-NOT-APPLY $P"; git checkout -q HEAD -- . ; exit 8; }
 rc=0
 for id in "$@"; do
   VERIF_EVIDENCE_DIR=/tmp/seed_evidence /verif/check "$id" 2>&1 | grep -v "^WARNING conda" | cut -c1-400
 done
-git checkout -- . ; git clean -fdq magpylib
+git checkout -q HEAD -- . ; git clean -fdq magpylib
